@@ -163,6 +163,8 @@ kani_unit("fft_index", "winter-math", "math/src/fft/mod.rs", "kani/math_fft.rs",
       "forall k <= 63, i < 2^k: permute_index(2^k, i) < 2^k, is the k-bit reversal of i (bit b == bit k-1-b of i), and permute_index(2^k, .) is an involution"),
     H("fft_permute_index_injective_contract", ["C09"], ["fft::permute_index"],
       "forall k <= 63, i != j < 2^k: permute_index(2^k, i) != permute_index(2^k, j)"),
+    H("fft_permute_index_recurrence_contract", ["C09"], ["fft::permute_index"],
+      "permute_index(1, 0) == 0 and forall 1 <= k <= 63, i < 2^k: permute_index(2^k, i) == (i mod 2) * 2^(k-1) + permute_index(2^(k-1), i div 2) - the recurrence that defines the bit reversal (assumed by Verus unit fftcore as ax_pidx)"),
     H("fft_index_canary_must_fail", ["C09"], [], "false claim: permute_index(8, i) == i", canary=True),
 ])
 
@@ -171,4 +173,9 @@ verus_unit("fftv", "fftv", ["C09"], ["fft::fft_inputs::FftInputs::permute (every
 verus_unit("fftcore", "fftcore", ["C09"], [
     "fft::fft_inputs::fft_in_place (the butterfly network: every power-of-two length, every element value, every twiddle table; equals the radix-2 decimation-in-time recursion on each interleaved subsequence, other positions untouched)",
     "FftInputs::fft_in_place (entry point: the whole input is one subsequence)",
-    "fft::serial::evaluate_poly (network followed by the bit-reversal permutation: position t holds fft(p)[bitrev t])"])
+    "<[E] as FftInputs>::butterfly / butterfly_twiddle (bodies extracted: the two positions receive a + t*b and a - t*b, nothing else changes)",
+    "theorem_fft_is_dft (specification-level: the recursion with twiddles w^bitrev(k), w^(n/2) == -1, is the discrete Fourier transform - output p == sum_i s[i] * w^(i * bitrev p) - for every power-of-two size, relative to the module laws stated as a hypothesis)",
+    "fft::serial::evaluate_poly (network followed by the bit-reversal permutation: position t == sum_i p[i] * w^(i*t), the polynomial evaluated at w^t in natural order, for every power-of-two size)",
+    "fft::get_twiddles (table == w^bitrev(k) for w = get_root_of_unity(log2 n), w^(n/2) == -1; the two runtime assertions never fire under the documented pre-condition)",
+    "fft::get_inv_twiddles (the same for w^(n-1))",
+    "fft::serial::interpolate_poly (position t == (1/n) * sum_i v[i] * w^(i*t) for the inverse table: the inverse-transform formula)"])
